@@ -146,6 +146,14 @@ def build_sampler(trace, u, w, D, exact, burn, thin, seed):
         return r
     s._extract_hye = extract
 
+    real_todict = s._deg_seq_to_dict
+
+    def todict(deg_seq):
+        d = real_todict(deg_seq)
+        trace.last_dict = d          # the nodes_with_deg object _match_sequences is going to work on
+        return d
+    s._deg_seq_to_dict = todict
+
     real_match = s._match_sequences
 
     def match(deg_seq, dim_seq, force_deg_seq=False, force_dim_seq=True):
@@ -153,6 +161,7 @@ def build_sampler(trace, u, w, D, exact, burn, thin, seed):
                "fd": bool(force_deg_seq), "fm": bool(force_dim_seq)}
         trace.match = rec
         r = real_match(deg_seq, dim_seq, force_deg_seq=force_deg_seq, force_dim_seq=force_dim_seq)
+        rec["dict"] = getattr(trace, "last_dict", {})
         rec["result"] = sorted_cfg(r)
         rec["flag"] = s.matching_sequences
         return r
@@ -299,14 +308,23 @@ def enc_blocks(blocks):
 
 
 def enc_picks(extracts):
+    """every choice draw of _extract_hye, in call order (a key of nodes_with_deg whose set is empty yields a draw of size 0)"""
     picks = []
     for rec in extracts:
         for d in rec["draws"]:
             pop, res = check_choice(d)
-            if not pop and not res:
-                continue        # stale empty bucket of nodes_with_deg: a draw of size 0
             picks.append(res)
     return picks
+
+
+def dict_state(d, n):
+    """(key list in insertion order, residual degree per node) of a nodes_with_deg dictionary"""
+    keys = [int(k) for k in d.keys()]
+    resid = [None] * n
+    for k, nodes in d.items():
+        for x in nodes:
+            resid[int(x)] = int(k)
+    return keys, resid
 
 
 def split_steps(trace, burn, thin, nyields):
@@ -366,6 +384,8 @@ def oracle_outputs(ctx, case, res, trace, code_of):
     mode = case["mode"]
     N = len(case["u"])
     if mode == "hyg":
+        if "h0" not in res:
+            return
         h0 = res["h0"]
         e0 = [tuple(e) for e in h0.get_edges()]
         allowed = set(h0.get_nodes())
@@ -460,7 +480,7 @@ def legit_exception(case, t):
             return True
         if topup:
             return pos < rec["size"] and zeros < rec["size"] - pos
-        return pos == 0
+        return not any(k > 0 for k in rec["dict"])      # shrink branch: set.union() of nothing
     if t.match is not None and "result" not in t.match:
         return t.match["fd"] and not t.match["fm"]       # the unmodelled branch (self.model)
     if t.routine is not None and len(t.routine["init"]) < 2 and (case["burn"] > 0 or case["thin"] > 0):
@@ -512,9 +532,12 @@ def check_case(ctx, drv, case):
         ctx.count("flag_true" if r1["flag"] else "flag_false")
 
     # -- property oracles on the real outputs
-    oracle_outputs(ctx, case, r1, t1, None)
-    oracle_chain(ctx, case, t1)
-    oracle_matching(ctx, case, t1)
+    try:
+        oracle_outputs(ctx, case, r1, t1, None)
+        oracle_chain(ctx, case, t1)
+        oracle_matching(ctx, case, t1)
+    except Exception as e:  # noqa: BLE001 - the outputs do not even have the shape of a hypergraph
+        ctx.violation(case, f"the yielded objects cannot be inspected as weighted hypergraphs: {type(e).__name__}: {e}")
     if drv is None:
         return
 
@@ -547,12 +570,8 @@ def check_case(ctx, drv, case):
             picks = enc_picks(t1.extracts)
             lines.append(f"match {hgxv.enc_list(deg)} {hgxv.enc_lists(dim)} {int(m['fd'])} {int(m['fm'])} {hgxv.enc_lists(picks)}")
             if "result" in m:
-                resid = list(deg)
-                for rec in t1.extracts[-1:]:
-                    for d, nodes in rec["dict"].items():
-                        for x in nodes:
-                            resid[int(x)] = int(d)
-                expect.append(("match", m["result"], bool(m["flag"]), resid))
+                keys, resid = dict_state(m["dict"], len(deg))
+                expect.append(("match", m["result"], bool(m["flag"]), resid, keys))
             else:
                 expect.append(("none",))
             fixed = t1.routine["fixed"] if t1.routine else []
@@ -590,10 +609,11 @@ def check_case(ctx, drv, case):
             if dec_outs(a) != ex[1]:
                 what = f"samples differ: model {dec_outs(a)} implementation {ex[1]}"
         elif ex[0] == "match":
-            cfg_s, flag_s, resid_s, unused = a.split(" ")
+            cfg_s, flag_s, keys_s, resid_s, unused = a.split(" ")
             got = [sorted(e) for e in hgxv.dec_lists(cfg_s)]
-            if got != ex[1] or (flag_s == "1") != ex[2] or hgxv.dec_list(resid_s) != ex[3] or unused != "0":
-                what = f"_match_sequences differs: model {a!r} implementation cfg={ex[1]} flag={ex[2]} resid={ex[3]}"
+            if (got != ex[1] or (flag_s == "1") != ex[2] or hgxv.dec_list(resid_s) != ex[3] or hgxv.dec_list(keys_s) != ex[4]
+                    or unused != "0"):
+                what = f"_match_sequences differs: model {a!r} implementation cfg={ex[1]} flag={ex[2]} resid={ex[3]} keys={ex[4]}"
         elif ex[0] == "flag_outs":
             flag_s, outs_s = a.split(" ")
             if (flag_s == "1") != ex[1] or dec_outs(outs_s) != ex[2]:
@@ -675,20 +695,21 @@ def direct_extract(ctx, drv, rng):
     size = rng.randint(0, 6) if rng.random() < 0.1 else rng.randint(1, 5)
     fd, fm = rng.random() < 0.5, rng.random() < 0.5
     seed = rng.randint(0, 10**6)
-    case = {"mode": "extract", "resid": resid, "size": size, "fd": fd, "fm": fm, "seed": seed}
+    stale = sorted({rng.randint(0, 5) for _ in range(rng.choice([0, 0, 1, 2]))})
+    case = {"mode": "extract", "resid": resid, "size": size, "fd": fd, "fm": fm, "seed": seed, "stale": stale}
     tr = Trace()
     s = HyMMSBMSampler(u=np.ones((n, 1)), w=np.ones((1, 1)), seed=seed)
     s._rng = hgxv.RngProxy(s._rng, tr.log, "own")
     d = HyMMSBMSampler._deg_seq_to_dict(np.array(resid, dtype=int))
+    for k in case["stale"]:
+        d.setdefault(k, set())       # a key whose set has become empty (as left behind by earlier extractions)
+    keys0 = [int(k) for k in d.keys()]
     got = None
     try:
         with time_limit(5):
             r = s._extract_hye(d, size, fd, fm)
-        res2 = [None] * n
-        for k, v in d.items():
-            for x in v:
-                res2[int(x)] = int(k)
-        got = (sorted(int(x) for x in r), res2, s.matching_sequences is False)
+        keys2, res2 = dict_state(d, n)
+        got = (sorted(int(x) for x in r), res2, s.matching_sequences is False, keys2)
     except Timeout:
         ctx.violation(case, "_extract_hye did not return")
         return
@@ -697,7 +718,7 @@ def direct_extract(ctx, drv, rng):
     ctx.case(repr(case), got is not None)
     ctx.count("direct_extract")
     if got is not None:
-        hye, res2, exhausted = got
+        hye, res2, exhausted, _ = got
         # what the step promises: chosen nodes are distinct, positive-degree nodes lose exactly one unit,
         # nobody else changes; without exhaustion the hyperedge has the requested size
         ok = len(set(hye)) == len(hye) and all(0 <= x < n for x in hye)
@@ -718,8 +739,8 @@ def direct_extract(ctx, drv, rng):
     except BadTrace as e:
         ctx.disagree(case, str(e))
         return
-    a = drv.ask(f"extract {hgxv.enc_list(resid)} {size} {int(fd)} {int(fm)} {hgxv.enc_lists(picks)}")
-    want = "none" if got is None else f"{hgxv.enc_list(got[0])} {hgxv.enc_list(got[1])} {int(got[2])} 0"
+    a = drv.ask(f"extract {hgxv.enc_list(keys0)} {hgxv.enc_list(resid)} {size} {int(fd)} {int(fm)} {hgxv.enc_lists(picks)}")
+    want = "none" if got is None else f"{hgxv.enc_list(got[0])} {hgxv.enc_list(got[3])} {hgxv.enc_list(got[1])} {int(got[2])} 0"
     if a != want:
         ctx.disagree(case, f"_extract_hye: model {a!r}, implementation {want!r} (picks {picks})")
 
